@@ -41,6 +41,7 @@ class Eval:
         self.loops = []
         self._helper_depth = 0
         self._helper_stack = []
+        self.closure_args = None  # optional: [args of the 1st closure met, args of the 2nd, ...] to specialise closures on concrete arguments
 
     # ------------------------------------------------------------------ entry points
     def function(self, body, args=None, depth=0):
@@ -346,10 +347,15 @@ class Eval:
         if k == "Closure":
             env2 = dict(env)
             names = []
-            for p in e["params"]:
+            override = self.closure_args.pop(0) if self.closure_args else None
+            for i_, p in enumerate(e["params"]):
                 bs = list(pat_bindings(p))
                 names.append("/".join(b["name"] for b in bs) or "_")
-                self.bind_pat(p, None, env2, default_param=True)
+                if override is not None and i_ < len(override):
+                    # the caller wants this closure specialised on concrete arguments
+                    self.bind_pat(p, override[i_], env2)
+                else:
+                    self.bind_pat(p, None, env2, default_param=True)
             saved = self.returns
             self.returns = []
             body = self.expr(e["body"], env2, depth)
@@ -396,6 +402,17 @@ class Eval:
             self.merge(env, ("match", sc), envs)
             return ("match", sc, tuple(arms))
         if k == "If":
+            cond_e = strip(e["cond"])
+            if cond_e.get("k") == "Let":
+                # `if let P = <literal constructor>`: decided here (the same partial evaluation as for `match`)
+                init0 = self.expr(cond_e["init"], dict(env), depth)
+                if isinstance(init0, tuple) and init0 and init0[0] == "ctor":
+                    r0 = pat_vs_term(cond_e["pat"], init0)
+                    if r0 is True:
+                        self.bind_pat(cond_e["pat"], init0, env)
+                        return self.expr(e["then"], env, depth)
+                    if r0 is False:
+                        return self.expr(e["else"], env, depth) if "else" in e else ("unit",)
             c = self.expr(e["cond"], env, depth)
             e1 = dict(env)
             self.conds.append((c, True))
